@@ -158,7 +158,13 @@ Skel(kind, a, b, c) ==
     [] kind = "eachxs" -> a \o <<Each("x", ArrL(<<StrL("p")>>), <<H("[")>> \o b \o <<H("]")>>, NoElse, 1)>> \o c
     [] kind = "forx" -> a \o <<For(Assign("x", IntL(0), 1), Bin("<", Var("x"), IntL(2)), Post("++", Var("x")),
                                    <<H("[")>> \o b \o <<H("]")>>, NoElse, 1)>> \o c
-Skels == {"flat", "if", "else", "elseif", "each", "for", "eachelse", "forelse", "ifeach", "eachx", "eachxs", "forx"}
+    \* a @for without an init clause is a block like the others: what its body, its post clause or its @else body assign is
+    \* gone after @end (the counter k of the enclosing block still holds 0 there)
+    [] kind = "forni" -> a \o <<Assign("k", IntL(0), 1), For(NoInit, Bin("<", Var("k"), IntL(2)), Assign("k", Bin("+", Var("k"), IntL(1)), 1),
+                                                              <<H("[")>> \o b \o <<H("]")>>, NoElse, 1), P(Var("k"))>> \o c
+    [] kind = "fornibreak" -> a \o <<For(NoInit, BoolL(TRUE), NoPost, <<H("[")>> \o b \o <<H("]"), Break(1)>>, NoElse, 1)>> \o c
+    [] kind = "fornielse" -> a \o <<For(NoInit, BoolL(FALSE), NoPost, <<H("never")>>, <<H("[")>> \o b \o <<H("]")>>, 1)>> \o c
+Skels == {"flat", "if", "else", "elseif", "each", "for", "eachelse", "forelse", "ifeach", "eachx", "eachxs", "forx", "forni", "fornibreak", "fornielse"}
 DataSets == {<<>>, <<[n |-> "x", v |-> I(4)]>>, <<[n |-> "x", v |-> S("d")]>>, <<[n |-> "y", v |-> I(6)], [n |-> "x", v |-> B(FALSE)]>>,
              <<[n |-> "x", v |-> Nil]>>}
 ScopeProgsOf(As, Cs) == {[p |-> Skel(k, a, b \o b2, c \o Rd("x")), d |-> d] :
